@@ -20,6 +20,10 @@ PROFILES = [
     ("inexact-beta-and-tables", {"inexact": True}),
     ("log-grid", {"p_log": 1.0, "p_w": 1.0, "p_z": 0.0}),
     ("filtered-and-unfiltered-choice", {"p_r": 1.0, "p_b": 1.0}),
+    ("a discrete state with 300 labels (more than a byte can index)", {"p_w": 0.0, "p_z": 0.0, "p_h": 1.0, "p_h_stoch": 0.0, "p_e": 0.0, "p_r": 0.0, "p_b": 0.3,
+                                                                       "sizes": {"h": 300}, "T": [1, 2], "max_cells": 4000, "p_dead_label": 0.0}),
+    ("many variables (17-20), most with a single label", {"pad_states": 14, "p_w": 1.0, "p_h": 1.0, "p_r": 0.5, "p_z": 0.0, "p_e": 0.0, "p_d": 0.0,
+                                                          "T": [1, 2], "max_cells": 2500}),
 ]
 
 
